@@ -18,6 +18,7 @@ package queues
 //@ func New(initialSize)
 //@   requires 1 <= initialSize
 //@   ensures  result != nil && fresh(result) && wf(result) && size(result) == 0
+//@   ensures  fresh(result.content) && fresh(result.content.buffer) && !held(result.lock)
 
 //@ func (*RingQueue).Push
 //@   check overflow
@@ -27,6 +28,9 @@ package queues
 //@   ensures  size(q) == old(size(q)) + 1
 //@   ensures  forall i mathint :: 0 <= i && i < old(size(q)) ==> at(q, i) == old(at(q, i))
 //@   ensures  at(q, old(size(q))) == item
+// growth replaces the ring by a new one: nothing another queue owns is touched
+//@   ensures  q.content == old(q.content) || fresh(q.content)
+//@   ensures  arr(q.content.buffer) == old(arr(q.content.buffer)) || fresh(q.content.buffer)
 //@ loop (*RingQueue).Push#1
 //@   invariant 0 <= i && i <= c.mod && len(newBuff) == newLen && newLen > c.mod
 //@   invariant forall j mathint :: 0 <= j && j < i ==> newBuff[j] == c.buffer[md(c.tail + j, c.mod)]
